@@ -171,3 +171,14 @@ pub fn reparse(bytes: &[u8], sig: &str, what: &str) -> Result<APacket, Fail> {
     })?;
     lib("observe", || crate::bridge::observe(&p))
 }
+
+/// view an abstract packet the way the library's enums can show it (unnamed codes -> Reserved)
+pub fn as_library_shows(mut p: APacket) -> APacket {
+    if !NAMED_OPCODES.contains(&p.opcode) {
+        p.opcode = OPCODE_RESERVED;
+    }
+    if !NAMED_RCODES.contains(&p.rcode) {
+        p.rcode = RCODE_RESERVED;
+    }
+    p
+}
